@@ -20,3 +20,15 @@ package objfile
 //gvc:  ensures overflow: !old(w.closed) && len(p) > old(w.pending) ==> err != nil
 //gvc:  ensures closed: old(w.closed) ==> n == 0 && err == ErrClosed
 //gvc:end
+
+// Writer.Close: a nil result means the object is complete: exactly the size
+// declared in the header was written (pending == 0). An object that is short
+// of its declared size is not a loose object git can read (property C01).
+//gvc:func (*Writer).Close
+//gvc:  props C01
+//gvc:  theory int
+//gvc:  opt coarse
+//gvc:  opt frame args
+//gvc:  requires inv: w.pending >= 0
+//gvc:  ensures complete: result == nil && !old(w.closed) ==> w.pending == 0
+//gvc:end
